@@ -19,6 +19,7 @@ import (
 	"io"
 	"os"
 	"regexp"
+	"seehuhn.de/go/xmp"
 	"strconv"
 	"testing"
 )
@@ -80,6 +81,10 @@ func c02Write(v Version, human bool, seekable bool, user, owner string, variant 
 		sink = &buf
 	}
 	opt := &WriterOptions{HumanReadable: human, UserPassword: user, OwnerPassword: owner, UserPermissions: PermCopy | PermPrint}
+	if variant%3 == 2 && v >= V1_6 {
+		// document metadata stored in plain text (/EncryptMetadata false in encrypted files)
+		opt.DocumentMetadata = &MetadataStream{Data: xmp.NewPacket(), Plaintext: true}
+	}
 	w, err := NewWriter(sink, v, opt)
 	if err != nil {
 		return nil, fmt.Errorf("NewWriter: %w", err)
